@@ -1098,6 +1098,13 @@ def join_states(ctx, a, b, tag, widen=False, thresholds=()):
     for v, p in a.prov.items():
         if ma.get(v) == v and mb.get(v) == v and b.prov.get(v) == p and all(unchanged(x) for x in p[1]):
             out.prov[v] = p
+    # known bits survive a join where both sides know the same bit with the same value
+    for (xa, xb), t in pair.items():
+        pa, pb = a.prov.get(xa), b.prov.get(xb)
+        if pa and pb and pa[0] == "kbits" and pb[0] == "kbits" and t not in out.prov:
+            m = pa[2][0] & pb[2][0] & ~(pa[2][1] ^ pb[2][1])
+            if m:
+                out.prov[t] = ("kbits", (), (m, pa[2][1] & m))
     return out
 
 
